@@ -404,9 +404,42 @@ class MethodMixin:
                     return args[1]
                 ctx.may_raise(True, "KeyError", "dict.pop")
                 raise Infeasible()
-            raise Unsupported("pop on symbolic dict")
+            if getattr(cell, "unknown", False):
+                return Opaque("dict-item", fresh=cell.fresh)
+            # symbolic map: pop(k) raises KeyError unless k is a key; pop(k, d) gives d then; the key is gone afterwards
+            ty = cell.sym.ty
+            s_ = sort_of(ty)
+            kt = ctx.term(args[0], ty.args[0])
+            present = z3.Select(s_.dom(cell.sym.t), kt)
+            if len(args) > 1:
+                if ctx.decide(present, "pop: key present"):
+                    v = ctx.wrap(z3.Select(s_.val(cell.sym.t), kt), ty.args[1])
+                    self.dict_del(cell, args[0])
+                    return v
+                return args[1]
+            v = self.dict_get(cell, args[0], raising=True)
+            self.dict_del(cell, args[0])
+            return v
         if name == "setdefault":
-            raise Unsupported("dict.setdefault")
+            if getattr(cell, "unknown", False):
+                return Opaque("dict-item", fresh=cell.fresh)
+            default = args[1] if len(args) > 1 else None
+            if cell.sym is None:
+                try:
+                    hk = self._hashable(args[0])
+                except Unsupported:
+                    raise Unsupported("dict.setdefault with a symbolic key on a concrete dict")
+                if hk in cell.conc:
+                    return cell.conc[hk]
+                self.dict_set(cell, args[0], default)
+                return default
+            ty = cell.sym.ty
+            s_ = sort_of(ty)
+            kt = ctx.term(args[0], ty.args[0])
+            if ctx.decide(z3.Select(s_.dom(cell.sym.t), kt), "setdefault: key present"):
+                return ctx.wrap(z3.Select(s_.val(cell.sym.t), kt), ty.args[1])
+            self.dict_set(cell, args[0], default)
+            return default
         raise Unsupported(f"dict.{name}")
 
     # ------------------------------------------------------------------ set
